@@ -147,3 +147,20 @@ func init() {
 		}
 	}
 }
+
+func init() {
+	debugCmds["redpaths"] = func(args []string) {
+		p, _ := loadProg("/repo", "")
+		c, _ := newCtx(p, "DBG", "quick")
+		fn := p.Func("", "*Tx", "ReadFrom")
+		if len(args) > 0 {
+			fn = p.Func("", "*"+args[0], "ReadFrom")
+		}
+		ps, err := reducedPaths(c, fn)
+		fmt.Println(err)
+		for _, rp := range ps {
+			fmt.Println("WHEN", strings.Join(rp.conds, " && "))
+			fmt.Println("   ", strings.Join(rp.events, " ; "))
+		}
+	}
+}
